@@ -50,14 +50,16 @@ inductive LeafSpec
 inductive UnKind
   | thenF (f : Fn) | uponError (f : Fn) | uponDone (v : Nat)
   | matDemat | doneAsOpt (d : Nat) | unstoppable | withTag (q : Nat) | withSrc | erase
+  | intoVariant | deferK | allocate
   deriving DecidableEq, Repr
 
 inductive BinKind
-  | letValue | letError | letDone | seq | fin | whenAll | stopWhen
+  | letValue | letError | letDone | seq | fin | whenAll | stopWhen | whenAny
   deriving DecidableEq, Repr
 
 inductive ConstKind
   | just (v : Nat) | justError (e : Nat) | justDone | argv (k : Nat) | stopIfRequested
+  | justFrom (v : Nat) | justVoidOrDone (isVoid : Bool)
   deriving DecidableEq, Repr
 
 inductive Expr
@@ -98,35 +100,43 @@ structure BinSt where
   doe : Bool               -- when_all: doneOrError_
   err : Option Nat         -- when_all: the stored first error
   src : Bool               -- when_all / stop_when: own stop source has been requested
+  val : Option Nat         -- when_any: the stored first value
   deriving DecidableEq, Repr
 
 def Env.dflt : Env := ⟨false, true, 0, 0⟩
-def BinSt.init : BinSt := ⟨.idle, false, Env.dflt, none, none, false, none, false⟩
+def BinSt.init : BinSt := ⟨.idle, false, Env.dflt, none, none, false, none, false, none⟩
 
 inductive Op
   | const (k : ConstKind) (ph : Phase)
-  | leaf (i : Nat) (ph : Phase)
+  | leaf (i : Nat) (ph : Phase) (nt : Bool)   -- nt: (ghost) the leaf has received a stop notification
   | un (k : UnKind) (c : Op) (ph : Phase) (env : Env)
   | bin (k : BinKind) (a b : Op) (st : BinSt)
   deriving DecidableEq, Repr
 
 def connect : Expr → Op
   | .const k => .const k .idle
-  | .leaf i => .leaf i .idle
+  | .leaf i => .leaf i .idle false
   | .un k c => .un k (connect c) .idle Env.dflt
   | .bin k a b => .bin k (connect a) (connect b) BinSt.init
 
 def Op.phase : Op → Phase
   | .const _ ph => ph
-  | .leaf _ ph => ph
+  | .leaf _ ph _ => ph
   | .un _ _ ph _ => ph
   | .bin _ _ _ st => st.ph
 
 def Op.height : Op → Nat
   | .const _ _ => 0
-  | .leaf _ _ => 0
+  | .leaf _ _ _ => 0
   | .un _ c _ _ => c.height + 1
   | .bin _ a b _ => max a.height b.height + 1
+
+/-- the leaves that have been started and not yet completed -/
+def Op.pending : Op → List Nat
+  | .const _ _ => []
+  | .leaf i ph _ => if ph = .running then [i] else []
+  | .un _ c _ _ => c.pending
+  | .bin _ a b _ => a.pending ++ b.pending
 
 abbrev Res := Op × List Out × Option Outcome
 
@@ -137,6 +147,8 @@ def ConstKind.outcome (k : ConstKind) (env : Env) : Outcome :=
   | .justDone => .done
   | .argv k => .value (env.arg + k)
   | .stopIfRequested => if env.stopped then .done else .value 0
+  | .justFrom v => .value v
+  | .justVoidOrDone b => if b then .value 0 else .done
 
 /-- how a unary adaptor maps its child's completion -/
 def UnKind.map (k : UnKind) (o : Outcome) : Outcome :=
@@ -159,7 +171,8 @@ def UnKind.forwardsStop : UnKind → Bool
   | .unstoppable => false
   | _ => true
 
-def Env.stop (env : Env) : Env := if env.stoppable then { env with stopped := true } else env
+/-- a node only receives a stop event when its token can be stopped, so no guard is needed -/
+def Env.stop (env : Env) : Env := { env with stopped := true }
 
 /-- when_all's result once both children have completed (deliver_result) -/
 def whenAllResult (rcvStopped : Bool) (st : BinSt) : Outcome :=
@@ -179,10 +192,22 @@ def finResult (saved : Option Outcome) (ob : Outcome) : Outcome :=
 variable (specs : Nat → LeafSpec)
 
 /-- record a when_all element completion in the state (element_receiver::set_*) ; returns the new
-    state and whether this completion requests stop on the when_all's own source -/
-def waRecord (st : BinSt) (isA : Bool) (o : Outcome) : BinSt × Bool :=
-  let st1 := if isA then { st with ra := some o } else { st with rb := some o }
-  match o with
+    state and whether this completion requests stop on the when_all's own source.
+    `any = true` is when_any, which the library builds from when_all by wrapping every child in
+    `let_value(store_result)`: a child's value is stored (the first one wins) and the child then
+    completes with done, so for the underlying when_all EVERY first completion is a "failure" that
+    stops the others. -/
+def waRecord (any : Bool) (st : BinSt) (isA : Bool) (o : Outcome) : BinSt × Bool :=
+  let st0 : BinSt :=
+    match any, o with
+    | true, .value v => if st.val.isNone then { st with val := some v } else st
+    | _, _ => st
+  let o' : Outcome :=
+    match any, o with
+    | true, .value _ => .done
+    | _, x => x
+  let st1 := if isA then { st0 with ra := some o' } else { st0 with rb := some o' }
+  match o' with
   | .value _ => (st1, false)
   | .error e =>
     if st1.doe then (st1, false)
@@ -190,6 +215,16 @@ def waRecord (st : BinSt) (isA : Bool) (o : Outcome) : BinSt × Bool :=
   | .done =>
     if st1.doe then (st1, false)
     else ({ st1 with doe := true }, !st1.src)
+
+/-- when_any: `let_done` after the when_all turns done into the stored value, if there is one -/
+def anyResult (st : BinSt) (r : Outcome) : Outcome :=
+  match r with
+  | .done => (match st.val with | some v => .value v | none => .done)
+  | x => x
+
+def BinKind.isAny : BinKind → Bool
+  | .whenAny => true
+  | _ => false
 
 /-! ### One clause per algorithm.  Each `…Step` function is NOT recursive: it receives `rec`, the
      evaluator for the children (`deliver` at smaller fuel), so that each algorithm can be reasoned
@@ -202,25 +237,25 @@ def constStep (ev : Ev) (k : ConstKind) (ph : Phase) : Res :=
   | .idle, .start env => (.const k .finished, [], some (k.outcome env))
   | _, _ => (.const k ph, [], none)
 
-def leafStep (ev : Ev) (i : Nat) (ph : Phase) : Res :=
+def leafStep (ev : Ev) (i : Nat) (ph : Phase) (nt : Bool) : Res :=
   match ph, ev with
   | .idle, .start env =>
     match specs i with
-    | .inline o => (.leaf i .finished, [.leafStart i env.stopped env.tag], some o)
+    | .inline o => (.leaf i .finished nt, [.leafStart i env.stopped env.tag], some o)
     | .pending r =>
       if env.stopped then
         -- the stop callback runs inline during registration
         match r with
-        | .completeDone => (.leaf i .finished, [.leafStart i true env.tag, .leafStop i], some .done)
-        | .ignore => (.leaf i .running, [.leafStart i true env.tag, .leafStop i], none)
-      else (.leaf i .running, [.leafStart i false env.tag], none)
+        | .completeDone => (.leaf i .finished true, [.leafStart i true env.tag, .leafStop i], some .done)
+        | .ignore => (.leaf i .running true, [.leafStart i true env.tag, .leafStop i], none)
+      else (.leaf i .running nt, [.leafStart i false env.tag], none)
   | .running, .stop =>
     match specs i with
-    | .pending .completeDone => (.leaf i .finished, [.leafStop i], some .done)
-    | _ => (.leaf i .running, [.leafStop i], none)
+    | .pending .completeDone => (.leaf i .finished true, [.leafStop i], some .done)
+    | _ => (.leaf i .running true, [.leafStop i], none)
   | .running, .complete j o =>
-    if i = j then (.leaf i .finished, [], some o) else (.leaf i ph, [], none)
-  | _, _ => (.leaf i ph, [], none)
+    if i = j then (.leaf i .finished nt, [], some o) else (.leaf i ph nt, [], none)
+  | _, _ => (.leaf i ph nt, [], none)
 
 /-- wrap a child's result into the unary node -/
 def unWrap (k : UnKind) (env : Env) (r : Res) : Res :=
@@ -237,68 +272,78 @@ def unStep (rec : Rec) (ev : Ev) (k : UnKind) (c : Op) (ph : Phase) (env : Env) 
   | .running, .complete i o => unWrap k env (rec (.complete i o) c)
   | _, _ => (.un k c ph env, [], none)
 
-/-- finish a when_all node if both children have reported -/
-def waFinish (a b : Op) (st : BinSt) (outs : List Out) : Res :=
+/-- finish a when_all / when_any node if both children have reported -/
+def waFinish (k : BinKind) (a b : Op) (st : BinSt) (outs : List Out) : Res :=
   if st.ra.isSome && st.rb.isSome then
-    (.bin .whenAll a b { st with ph := .finished }, outs, some (whenAllResult st.env.stopped st))
-  else (.bin .whenAll a b st, outs, none)
+    (.bin k a b { st with ph := .finished }, outs,
+      some (if k.isAny then anyResult st (whenAllResult st.env.stopped st) else whenAllResult st.env.stopped st))
+  else (.bin k a b st, outs, none)
 
 /-- apply `rec ev x` only if `cond`, else leave `x` alone -/
 def recIf (rec : Rec) (cond : Bool) (ev : Ev) (x : Op) : Res :=
   if cond then rec ev x else (x, [], none)
 
-def waRec (st : BinSt) (isA : Bool) (r : Option Outcome) : BinSt × Bool :=
+def waRec (any : Bool) (st : BinSt) (isA : Bool) (r : Option Outcome) : BinSt × Bool :=
   match r with
-  | some o => waRecord st isA o
+  | some o => waRecord any st isA o
   | none => (st, false)
 
 def markSrc (st : BinSt) (b : Bool) : BinSt := if b then { st with src := true } else st
 
-def waStart (rec : Rec) (a b : Op) (st : BinSt) (env0 : Env) : Res :=
-  -- stopCallback_ registered first: runs inline if stop was already requested
-  let st0 : BinSt := { st with ph := .running, env := env0, src := env0.stopped }
-  let ra := rec (.start { env0 with stopped := st0.src, stoppable := true }) a
-  let st1 := (waRec st0 true ra.2.2).1
-  let st1 := markSrc st1 st1.doe
-  let rb := rec (.start { env0 with stopped := st1.src, stoppable := true }) b
-  let p2 := waRec st1 false rb.2.2
-  let st2 := markSrc p2.1 p2.1.doe
-  -- b's failure stops a (if a is still running and the source was not yet stopped)
-  let ra2 := recIf rec (p2.2 && st2.ra.isNone) .stop ra.1
-  let st3 := (waRec st2 true ra2.2.2).1
-  waFinish ra2.1 rb.1 st3 (ra.2.1 ++ rb.2.1 ++ ra2.2.1)
+/-- Child `isA` has just produced the signal `r` (its updated tree is already in place): record a
+    completion (element_receiver::set_*) and, if it is the first failure, request stop on the
+    when_all's own source, i.e. notify the sibling if that is still running. -/
+def waAfterChild (rec : Rec) (any : Bool) (isA : Bool) (a b : Op) (st : BinSt) (r : Option Outcome) :
+    Op × Op × BinSt × List Out :=
+  match r with
+  | none => (a, b, st, [])
+  | some o =>
+    let p := waRecord any st isA o
+    let st1 := markSrc p.1 p.2
+    if isA then
+      let rb := recIf rec (p.2 && st1.rb.isNone) .stop b
+      (a, rb.1, (waRec any st1 false rb.2.2).1, rb.2.1)
+    else
+      let ra := recIf rec (p.2 && st1.ra.isNone) .stop a
+      (ra.1, b, (waRec any st1 true ra.2.2).1, ra.2.1)
 
-def waStop (rec : Rec) (a b : Op) (st : BinSt) : Res :=
+def waStart (rec : Rec) (k : BinKind) (a b : Op) (st : BinSt) (env0 : Env) : Res :=
+  -- stopCallback_ registered first: runs inline if stop was already requested
+  let st0 : BinSt := { BinSt.init with ph := .running, env := env0, src := env0.stopped, second := st.second }
+  let ra := rec (.start { env0 with stopped := st0.src, stoppable := true }) a
+  -- b is not started yet: a failing a only marks the source as stopped
+  let p1 := waRec k.isAny st0 true ra.2.2
+  let st1 := markSrc p1.1 p1.2
+  let rb := rec (.start { env0 with stopped := st1.src, stoppable := true }) b
+  -- b's failure stops a (if a is still running and the source was not yet stopped)
+  let x := waAfterChild rec k.isAny false ra.1 rb.1 st1 rb.2.2
+  waFinish k x.1 x.2.1 x.2.2.1 (ra.2.1 ++ rb.2.1 ++ x.2.2.2)
+
+def waStop (rec : Rec) (k : BinKind) (a b : Op) (st : BinSt) : Res :=
   let st0 := { st with env := st.env.stop }
-  if st.src then (.bin .whenAll a b st0, [], none)
+  if st.src then (.bin k a b st0, [], none)
   else
     let st1 := { st0 with src := true }
     let ra := recIf rec st1.ra.isNone .stop a
-    let st2 := (waRec st1 true ra.2.2).1
+    let st2 := (waRec k.isAny st1 true ra.2.2).1
     let rb := recIf rec st2.rb.isNone .stop b
-    let st3 := (waRec st2 false rb.2.2).1
-    waFinish ra.1 rb.1 st3 (ra.2.1 ++ rb.2.1)
+    let st3 := (waRec k.isAny st2 false rb.2.2).1
+    waFinish k ra.1 rb.1 st3 (ra.2.1 ++ rb.2.1)
 
-def waComplete (rec : Rec) (a b : Op) (st : BinSt) (i : Nat) (o : Outcome) : Res :=
+def waComplete (rec : Rec) (k : BinKind) (a b : Op) (st : BinSt) (i : Nat) (o : Outcome) : Res :=
   -- the leaf lives in exactly one of the two subtrees; a finished/idle subtree ignores the event
   let ra := rec (.complete i o) a
-  let p1 := waRec st true ra.2.2
-  let st1 := markSrc p1.1 p1.2
-  let rb1 := recIf rec (p1.2 && st1.rb.isNone) .stop b
-  let st2 := (waRec st1 false rb1.2.2).1
-  let rb := recIf rec ra.2.2.isNone (.complete i o) rb1.1
-  let p3 := waRec st2 false rb.2.2
-  let st3 := markSrc p3.1 p3.2
-  let ra2 := recIf rec (p3.2 && st3.ra.isNone) .stop ra.1
-  let st4 := (waRec st3 true ra2.2.2).1
-  waFinish ra2.1 rb.1 st4 (ra.2.1 ++ rb1.2.1 ++ rb.2.1 ++ ra2.2.1)
+  let x := waAfterChild rec k.isAny true ra.1 b st ra.2.2
+  let rb := recIf rec ra.2.2.isNone (.complete i o) x.2.1
+  let y := waAfterChild rec k.isAny false x.1 rb.1 x.2.2.1 rb.2.2
+  waFinish k y.1 y.2.1 y.2.2.1 (ra.2.1 ++ x.2.2.2 ++ rb.2.1 ++ y.2.2.2)
 
-def waStep (rec : Rec) (ev : Ev) (a b : Op) (st : BinSt) : Res :=
+def waStep (rec : Rec) (ev : Ev) (k : BinKind) (a b : Op) (st : BinSt) : Res :=
   match st.ph, ev with
-  | .idle, .start env0 => waStart rec a b st env0
-  | .running, .stop => waStop rec a b st
-  | .running, .complete i o => waComplete rec a b st i o
-  | _, _ => (.bin .whenAll a b st, [], none)
+  | .idle, .start env0 => waStart rec k a b st env0
+  | .running, .stop => waStop rec k a b st
+  | .running, .complete i o => waComplete rec k a b st i o
+  | _, _ => (.bin k a b st, [], none)
 
 /-- stop_when: a = source, b = trigger; `ra` = source's result, `rb` = trigger completed -/
 def swFinish (a b : Op) (st : BinSt) (outs : List Out) : Res :=
@@ -311,16 +356,32 @@ def setRa (st : BinSt) (r : Option Outcome) : BinSt :=
 def setRb (st : BinSt) (r : Option Outcome) : BinSt :=
   match r with | some o => { st with rb := some o } | none => st
 
+/-- Child `isA` (source or trigger) has just produced the signal `r`: record it and request stop on
+    the stop_when's own source, i.e. notify the other child if that is still running
+    (notify_source_complete / notify_trigger_complete). -/
+def swAfterChild (rec : Rec) (isA : Bool) (a b : Op) (st : BinSt) (r : Option Outcome) :
+    Op × Op × BinSt × List Out :=
+  match r with
+  | none => (a, b, st, [])
+  | some o =>
+    let st1 : BinSt := if isA then { st with ra := some o } else { st with rb := some o }
+    let need := !st1.src
+    let st2 : BinSt := { st1 with src := true }
+    if isA then
+      let rb := recIf rec (need && st2.rb.isNone) .stop b
+      (a, rb.1, setRb st2 rb.2.2, rb.2.1)
+    else
+      let ra := recIf rec (need && st2.ra.isNone) .stop a
+      (ra.1, b, setRa st2 ra.2.2, ra.2.1)
+
 def swStart (rec : Rec) (a b : Op) (st : BinSt) (env0 : Env) : Res :=
-  let st0 : BinSt := { st with ph := .running, env := env0, src := env0.stopped }
+  let st0 : BinSt := { BinSt.init with ph := .running, env := env0, src := env0.stopped, second := st.second }
   let ra := rec (.start { env0 with stopped := st0.src, stoppable := true }) a
+  -- the trigger is not started yet: a source that completes inline only marks the source stopped
   let st1 := markSrc (setRa st0 ra.2.2) ra.2.2.isSome
   let rb := rec (.start { env0 with stopped := st1.src, stoppable := true }) b
-  let st2 := setRb st1 rb.2.2
-  -- trigger completion stops the source
-  let ra2 := recIf rec (rb.2.2.isSome && st2.ra.isNone && !st2.src) .stop ra.1
-  let st3 := markSrc (setRa st2 ra2.2.2) rb.2.2.isSome
-  swFinish ra2.1 rb.1 st3 (ra.2.1 ++ rb.2.1 ++ ra2.2.1)
+  let x := swAfterChild rec false ra.1 rb.1 st1 rb.2.2
+  swFinish x.1 x.2.1 x.2.2.1 (ra.2.1 ++ rb.2.1 ++ x.2.2.2)
 
 def swStop (rec : Rec) (a b : Op) (st : BinSt) : Res :=
   let st0 := { st with env := st.env.stop }
@@ -335,17 +396,10 @@ def swStop (rec : Rec) (a b : Op) (st : BinSt) : Res :=
 
 def swComplete (rec : Rec) (a b : Op) (st : BinSt) (i : Nat) (o : Outcome) : Res :=
   let ra := rec (.complete i o) a
-  let st1 := setRa st ra.2.2
-  -- source completed: stop the trigger
-  let rb1 := recIf rec (ra.2.2.isSome && !st1.src && st1.rb.isNone) .stop b
-  let st1 := markSrc st1 ra.2.2.isSome
-  let st2 := setRb st1 rb1.2.2
-  let rb := recIf rec ra.2.2.isNone (.complete i o) rb1.1
-  let st3 := setRb st2 rb.2.2
-  let ra2 := recIf rec (rb.2.2.isSome && !st3.src && st3.ra.isNone) .stop ra.1
-  let st3 := markSrc st3 rb.2.2.isSome
-  let st4 := setRa st3 ra2.2.2
-  swFinish ra2.1 rb.1 st4 (ra.2.1 ++ rb1.2.1 ++ rb.2.1 ++ ra2.2.1)
+  let x := swAfterChild rec true ra.1 b st ra.2.2
+  let rb := recIf rec ra.2.2.isNone (.complete i o) x.2.1
+  let y := swAfterChild rec false x.1 rb.1 x.2.2.1 rb.2.2
+  swFinish y.1 y.2.1 y.2.2.1 (ra.2.1 ++ x.2.2.2 ++ rb.2.1 ++ y.2.2.2)
 
 def swStep (rec : Rec) (ev : Ev) (a b : Op) (st : BinSt) : Res :=
   match st.ph, ev with
@@ -380,7 +434,7 @@ def BinKind.finish (k : BinKind) (saved : Option Outcome) (ob : Outcome) : Outco
 /-- the first operation has just produced `ra` (under the current environment `env`) -/
 def seqAfterFirst (rec : Rec) (k : BinKind) (b : Op) (st : BinSt) (env : Env) (ra : Res) : Res :=
   match ra.2.2 with
-  | none => (.bin k ra.1 b { st with ph := .running, env := env }, ra.2.1, none)
+  | none => (.bin k ra.1 b { st with ph := .running, second := false, env := env }, ra.2.1, none)
   | some o =>
     if k.takes o then
       let rb := rec (.start (k.succEnv env o)) b
@@ -409,18 +463,19 @@ def seqStep (rec : Rec) (ev : Ev) (k : BinKind) (a b : Op) (st : BinSt) : Res :=
 
 def binStep (rec : Rec) (ev : Ev) (k : BinKind) (a b : Op) (st : BinSt) : Res :=
   match k with
-  | .whenAll => waStep rec ev a b st
+  | .whenAll | .whenAny => waStep rec ev k a b st
   | .stopWhen => swStep rec ev a b st
   | _ => seqStep rec ev k a b st
 
 /-- ONE external event, processed to quiescence.  The recursion is on `fuel` (not on the tree)
     because a cascade re-enters UPDATED subtrees (a failing when_all child stops its already
     started sibling); `fuel > height` always suffices (`Op.height`), and running out of fuel is the
-    distinct observation `Out.fuelOut`, never silence. -/
+    distinct observation `Out.fuelOut`, never silence (the subtree is then abandoned: replaced by a
+    finished node, so that the structural invariants are stated without side conditions on fuel). -/
 def deliver : Nat → Ev → Op → Res
-  | 0, _, op => (op, [.fuelOut], none)
+  | 0, _, op => (if op.phase = .finished then op else .const .justDone .finished, [.fuelOut], none)
   | _+1, ev, .const k ph => constStep ev k ph
-  | _+1, ev, .leaf i ph => leafStep specs ev i ph
+  | _+1, ev, .leaf i ph nt => leafStep specs ev i ph nt
   | fuel+1, ev, .un k c ph env => unStep (deliver fuel) ev k c ph env
   | fuel+1, ev, .bin k a b st => binStep (deliver fuel) ev k a b st
 
